@@ -191,7 +191,12 @@ type c17Ctx struct {
 	obs *c17Obs
 }
 
-func (x *c17Ctx) ev(format string, a ...any) { x.obs.Events = append(x.obs.Events, fmt.Sprintf(format, a...)) }
+func (x *c17Ctx) ev(format string, a ...any) {
+	if !vsched.Installed() {
+		return // free-running race pass: no events are evaluated
+	}
+	x.obs.Events = append(x.obs.Events, fmt.Sprintf(format, a...))
+}
 
 func peerCtx(peer string) context.Context {
 	return context.WithValue(context.Background(), "peer", peer)
@@ -275,6 +280,18 @@ func c17Defs() []c17Def {
 				x.ev("shutdown-err")
 			}
 		}},
+		{Name: "ro-begins", Run: func(x *c17Ctx) {
+			// read-only begins do not exclude each other: two of them at once, then a writer
+			ro := func(id string, tx transaction.Transaction) { tx.Get([]byte("a")); tx.Commit(); x.reg.Remove(id) }
+			r1 := x.client("R1", true, ro)
+			r2 := x.client("R2", true, ro)
+			vsched.Join(r1)
+			vsched.Join(r2)
+			x.reg.CleanupConnection("conn-R1")
+			x.reg.CleanupConnection("conn-R2")
+			a := x.client("A", false, commit(x, "A", "a"))
+			vsched.Join(a)
+		}},
 		{Name: "commit-vs-rollback", Run: func(x *c17Ctx) {
 			a := x.client("A", false, func(id string, tx transaction.Transaction) {
 				tx.Put([]byte("a"), []byte("A"))
@@ -311,6 +328,15 @@ func c17Defs() []c17Def {
 			stale(x)
 		}},
 	}
+}
+
+// c17RaceScenario: scenarios whose free run needs no 10 s / 30 s real-time wait.
+func c17RaceScenario(name string) bool {
+	switch name {
+	case "ro-begins", "commit-vs-rollback", "cleanup-vs-commit", "abandon-connection":
+		return true
+	}
+	return false
 }
 
 func c17Scenarios() []*explore.Scenario {
@@ -390,7 +416,7 @@ func init() {
 		ID:    "C17",
 		Level: "model_checking",
 		Rule: "(A) every sequence of <=4 (5 thorough) calls {get, put, delete, scan, commit, rollback} on one read-write and one read-only transaction: the first successful finish takes effect once, every later call returns the closed error and changes nothing, the database is free afterwards (probe begin) and shows exactly the committed effect. " +
-			"(B) stateless exploration of 8 registry scenarios (2-3 threads): begin waiting for the lock while the 10 s begin timeout fires as an environment event (every ready select case explored), abandonment followed by idle cleanup (direct and through the cleanup ticker), connection cleanup, graceful shutdown, commit racing rollback, stale cleanup racing commit; all interleavings up to the deviation bound (2 quick, 3 thorough) with happens-before caching. Oracle: after every terminal state a probe BeginTransaction(false) is granted (otherwise the scheduler reports the deadlock with the blocked sites), a write is visible iff its commit reported success, commit and rollback never both succeed. Non-trivial = executions with a cross-thread conflict",
+			"(B) stateless exploration of 9 registry scenarios (2-3 threads; two simultaneous read-only begins followed by a writer is the ninth): begin waiting for the lock while the 10 s begin timeout fires as an environment event (every ready select case explored), abandonment followed by idle cleanup (direct and through the cleanup ticker), connection cleanup, graceful shutdown, commit racing rollback, stale cleanup racing commit; all interleavings up to the deviation bound (2 quick, 3 thorough) with happens-before caching. Oracle: after every terminal state a probe BeginTransaction(false) is granted (otherwise the scheduler reports the deadlock with the blocked sites), a write is visible iff its commit reported success, commit and rollback never both succeed. (C) the scenarios without long real-time waits run free in a -race build (8 / 100 iterations each): any race report, panic or hang is a violation - the exploration interleaves at synchronisation operations only, which is sufficient only if there is no unsynchronised access. Non-trivial = executions with a cross-thread conflict",
 		Assumptions: []string{"virtual time: the 10 s begin timeout, the 30 s idle limit and the cleanup ticker are environment events / clock jumps", "a client never requests a second transaction while holding one (excluded by the statement)"},
 		Units: func(tier string) []string {
 			us := []string{"seq/rw", "seq/ro"}
@@ -403,13 +429,23 @@ func init() {
 				if strings.HasPrefix(d.Name, "begin-timeout") {
 					n = 16
 				}
-				us = append(us, shardUnits(d.Name, b, n)...)
+				bb := b
+				if d.Name == "ro-begins" {
+					bb = b - 1
+				}
+				us = append(us, shardUnits(d.Name, bb, n)...)
 			}
+			// free-running race pass over the scenarios without long real-time waits
+			us = append(us, raceUnits(c17Scenarios(), c17RaceScenario)...)
 			return us
 		},
+		ExeFor: raceExe,
 		Run: func(unit string, env *fw.Env) *fw.Result {
 			if strings.HasPrefix(unit, "seq/") {
 				return c17SeqUnit(unit, env)
+			}
+			if strings.HasPrefix(unit, "race/") {
+				return raceRun("C17", c17Scenarios(), unit, env)
 			}
 			sp := parseSched(unit)
 			for _, sc := range c17Scenarios() {
